@@ -406,7 +406,11 @@ def mutate_one(rng, prog):
             st["axis"] = (st["axis"] + 1) % max(1, len(shape_in))
             what = f"{op}.axis"
         elif op in ("stack", "expand_dims"):
-            st["axis"] = (st["axis"] + 1) % (len(shape_in) + 1)
+            if isinstance(st["axis"], list):
+                # tuple-axis expand_dims: move to the single-axis form on another position
+                st["axis"] = (st["axis"][0] + 1) % (len(shape_in) + 1)
+            else:
+                st["axis"] = (st["axis"] + 1) % (len(shape_in) + 1)
             what = f"{op}.axis"
         elif op == "clip":
             k = rng.choice(["lo", "hi"])
